@@ -5,6 +5,7 @@ import DadiVerif.Lemmas.Positivity
 import DadiVerif.Lemmas.GridReal
 import DadiVerif.Lemmas.DriverProgram
 import DadiVerif.Lemmas.KernelRun
+import DadiVerif.Lemmas.KernelOrder
 /-!
 # C02 — every integration path solves the documented implicit scheme
 
@@ -448,6 +449,27 @@ theorem C02_kernel_program_pre (R : KProg.KProgR) (hR : R ∈ KProg.resolvedAll)
     have e := KProg.run_expected_pre d ax env hd5 hax hs hw a b c ha hb hc hco phi hsz
     show (⟨env.shape, KProg.run (KProg.expected d ax true) env phi⟩ : ND) = _
     rw [e]; rfl
+
+/-- the canonical statement order used by the table is sound: `KProg.canonOrder` exchanges adjacent statements only when they touch
+    disjoint data (`KProg.indep`, computed from the statements), two such statements commute (`KProg.exec_comm`: frame + dependence
+    lemmas for every statement form), hence running the resolved program equals running the statements in SOURCE order -/
+theorem C02_kernel_source_order (K : Gen.C.KernelSig) (p : Gen.C.KernelProg) (env : KProg.KEnv) (phi : Array ℚ) :
+    KProg.run (KProg.resolve K p) env phi = KProg.run (KProg.resolveSrc K p) env phi :=
+  KProg.run_resolve_eq_src K p env phi
+
+/-- **`C02_kernel_program` for the statements exactly as the C source has them**: for every translated on-the-fly kernel body p
+    (with its signature entry K), running its statements in source order on the flat array is `stepAxis` -/
+theorem C02_kernel_program_src (p : Gen.C.KernelProg) (hp : p ∈ Gen.C.kernelProgs) (hpre : p.pre = false) (K : Gen.C.KernelSig)
+    (hK : KProg.sigOf p = some K) (env : KProg.KEnv)
+    (h : KProg.EnvOk p.d p.ax env) (hw : KProg.WrapperExtentsOk p.d p.ax false env.shape)
+    (epsND : ND) (heps : env.eps = fun i j => epsND.get (i.insertIdx p.ax j)) (phi : Array ℚ) (hsz : phi.size = prodL env.shape) :
+    (⟨env.shape, KProg.run (KProg.resolveSrc K p) env phi⟩ : ND) = stepAxis env.grids p.ax env.P env.use epsND env.dt ⟨env.shape, phi⟩ := by
+  rw [← C02_kernel_source_order]
+  have hmem : KProg.resolve K p ∈ KProg.resolvedAll := by
+    unfold KProg.resolvedAll
+    refine List.mem_map.mpr ⟨p, hp, ?_⟩
+    simp only [hK]
+  exact C02_kernel_program (KProg.resolve K p) hmem hpre env h hw epsND heps phi hsz
 
 /-- non-vacuity: the table has the 15 + 5 kernels; the hypotheses of `C02_kernel_program` are met by a 3 × 2 array in two populations -/
 example : KProg.resolvedAll.map (fun R => (R.d, R.ax, R.pre)) =
